@@ -203,6 +203,22 @@ def run_case(case, tmp):
         obs['y'], obs['S'] = np.asarray(res[0]), np.asarray(res[1])
     obs['model'] = sim._model
     obs['proto_obj'] = sim._protocol
+    # the same vector again after the solver object was replaced (sensitivities switched off and back to what they
+    # were): the new solver must be handed every value again
+    if sens == 'off':
+        outer.enable_sensitivities(True)
+        outer.enable_sensitivities(False)
+    else:
+        outer.enable_sensitivities(False)
+        if sel is not None:
+            m.enable_sensitivities(True, sel)
+        else:
+            outer.enable_sensitivities(True)
+    sim2 = m._simulator
+    k0 = len(sim2.calls)
+    res2 = outer.simulate(np.array(theta), times)
+    obs['calls_again'] = [c for c in sim2.calls[k0:]]
+    obs['y_again'] = np.asarray(res2 if sens == 'off' else res2[0])
     return obs
 
 
@@ -244,6 +260,9 @@ def direct(obs):
     if not err < 1e-9:
         return ('simulate(%s, %s) differs from the solution with each published name bound to its entry '
                 '(max rel. diff %.3g)' % (obs['theta'], obs['times'], err))
+    if obs['y_again'].shape != y.shape or not np.allclose(obs['y_again'], y, rtol=1e-9, atol=1e-12):
+        return ('simulate(%s, %s) repeated after the solver object was replaced (sensitivities switched) no longer '
+                'returns the solution for that vector' % (obs['theta'], obs['times']))
     if obs['sens'] == 'off':
         return None
     if obs['sens'] == 'all':
@@ -516,6 +535,8 @@ def run(ck):
             ts = coq_list([scaled(x) for x in obs['times']], coqZ)
             outs = coq_list(obs['outs'], coq_string)
             exprs.append((label, 'c09_reduced %s %s %s %s %s %s %s' % (ds, dc, outs, coq_state(obs), th, ts, calls)))
+            calls2 = coq_list(obs['calls_again'], lambda c: '(%s)' % coq_call(c))
+            exprs.append((label, 'c09_reduced %s %s %s %s %s %s %s' % (ds, dc, outs, coq_state(obs), th, ts, calls2)))
             if obs['sens'] != 'off':
                 req = obs['sens_request']
                 if req is None or list(req[0]) != obs['outs']:
